@@ -1733,6 +1733,12 @@ func (c *Client) roundTrip(r *Request) (resp *Response, err error) {
 		GetBody:       r.GetBody,
 		Close:         r.close,
 	}
+	if r.unReplayableBody != nil {
+		// A reader handed to SetBody can be read only once: r.GetBody returns that same
+		// reader again, so it must not be offered to the transport or to a redirect as a
+		// way to replay the body (a retried or redirected request went out with an empty body).
+		req.GetBody = nil
+	}
 	for _, cookie := range r.Cookies {
 		req.AddCookie(cookie)
 	}
